@@ -394,7 +394,7 @@ def enumerate_ops(c):
             ('op:pos', lambda x: +x), ('op:floordiv', lambda x: x // 2), ('op:pow', lambda x: x ** 2), ('op:rsub', lambda x: 1 - x), ('op:lt', lambda x: x < 2),
             # (matmul only on numeric containers: NumPy's object-dtype matmul corrupts reference counts when an element operation raises, and the process dies later)
             ('arg:matmul(array)', lambda x: _numeric(x) and x @ W((len(x),) if not isinstance(x, sf.Frame) else (x.shape[1],), 'float64')),
-            ('arg:rmatmul(array)', lambda x: _numeric(x) and W((len(x),) if not isinstance(x, sf.Frame) else (x.shape[0],), 'float64') @ x),
+            # (array @ container is NumPy's own operator first: it reads the container as a sequence of labels and returns its own array, not one the library hands out)
             ('arg:matmul(2d-array)', lambda x: _numeric(x) and x @ W((len(x), 2) if not isinstance(x, sf.Frame) else (x.shape[1], 2), 'float64')),
             ('pickle', lambda x: ('ROUNDTRIP', pickle.loads(pickle.dumps(x)))), ('deepcopy', lambda x: ('ROUNDTRIP', copy.deepcopy(x))), ('copy', lambda x: ('ROUNDTRIP', copy.copy(x))),
             ('len-iter-contains', lambda x: (len(x), list(itertools.islice(iter(x), 5)), first_label(x) in x)), ('hash-try', lambda x: hash(x)),
